@@ -354,6 +354,10 @@ pub fn step(ex: &mut Exec, ix: usize, op: &Op) {
                 Ok(x) => x,
                 Err(p) => {
                     ex.rec(ix, op, &p.render());
+                    if ex.on_prop("C17") && !p.is_hook_assert() {
+                        // "for any two character sequences the similarity equals ...": there is no value
+                        ex.viol("C17", "C17.panic", ix, &p.loc, format!("similarity({:?},{:?}) -> {}", a.iter().collect::<String>(), b.iter().collect::<String>(), p.render()), "a value in [0,1]".into());
+                    }
                     ex.panicked(ix, &p);
                     return;
                 }
